@@ -495,6 +495,14 @@ def run_check(check: Check, tier: str, seed: int, only_clauses: Iterable[str] | 
     }
     errors = []
     ctx = mp.get_context("fork")
+    # coverage-guided campaigns run as separate processes alongside the Hypothesis workers (quick tier: 2 small campaigns)
+    fuzz_handles = {}
+    for clause in check.clauses:
+        if isinstance(clause, FuzzClause):
+            from vlib import fuzzrun
+
+            nprocs_f, runs_f = clause.quick if tier == "quick" else clause.thorough
+            fuzz_handles[clause.name] = (time.time(), fuzzrun.start_campaigns(clause.target, nprocs_f, int(runs_f * scale), seed, clause.max_len))
 
     def merge(res):
         cname = check.clauses[res["ci"]].name
@@ -619,8 +627,8 @@ def run_check(check: Check, tier: str, seed: int, only_clauses: Iterable[str] | 
         from vlib import fuzzrun
 
         nprocs, runs = clause.quick if tier == "quick" else clause.thorough
-        tf = time.time()
-        fr = fuzzrun.run_campaigns(clause.target, clause.oracle, nprocs, int(runs * scale), seed, clause.max_len, timeout_s=600 if tier == "quick" else 3 * 3600)
+        tf, handle = fuzz_handles[clause.name]
+        fr = fuzzrun.finish_campaigns(handle, clause.oracle, timeout_s=600 if tier == "quick" else 3 * 3600)
         pc = per_clause[clause.name]
         pc["evals"] = fr["executions"]
         pc["classes"] = {"campaigns": fr["campaigns"], "unconfirmed-crash-files": fr["unconfirmed"]}
